@@ -340,15 +340,12 @@ func durations(thorough bool) []time.Duration {
 }
 
 // attemptNumbers: every n up to top, then 2^k-1, 2^k, 2^k+1 up to 2^31. In the thorough tier the exponential policy
-// gets every n up to 1100 (2^n becomes +Inf at n = 1024 in its float formula), the others every n up to 128
+// gets every n up to 1100 (2^n becomes +Inf at n = 1024 in its float formula); the others keep 0..64
 // (LinearJitterBackoff re-seeds a math/rand source per call, ~15 us: the dense range is kept short there).
 func attemptNumbers(thorough bool, kind string) []int {
 	top := 64
-	if thorough {
-		top = 128
-		if kind == kExponential {
-			top = 1100
-		}
+	if thorough && kind == kExponential {
+		top = 1100
 	}
 	var n []int
 	for i := 0; i <= top; i++ {
@@ -426,9 +423,6 @@ func runPartB(t *testing.T, rep *ev.Reporter, thorough bool) partBResult {
 	ras := retryAfterValues(thorough)
 	statuses := []int{200, 429, 500, 503}
 	seeds := 3
-	if thorough {
-		seeds = 4
-	}
 	type job struct {
 		kind   string
 		honour bool
